@@ -187,6 +187,10 @@ func c02Recipe(c *core.Ctx, r ref.CharRecipe) {
 		return
 	}
 	key := fmt.Sprintf("recipe %s", mustJSON(lit))
+	if len(d.Mass) == 0 && d.PanMass.Sign() == 0 && modelVerdict(r) != "accept" {
+		c.Count("recipes_refused", 1) // refused, though only after drawing
+		return
+	}
 	if d.PanMass.Sign() != 0 {
 		c.Violation(key+" panic", "Generate panicked: "+d.PanicMsg, map[string]interface{}{"recipe": lit, "outcomes": d.PanicEx})
 		return
